@@ -485,14 +485,18 @@ HeapWellFormed == \A r \in 1..Len(heap) :
                                                /\ \A i, j \in 1..Len(heap[r].ks) : heap[r].ks[i] = heap[r].ks[j] => i = j
                        [] OTHER -> TRUE
 (* a runtime error is absorbing and nothing observable happens after it (C06) *)
-NoEffectAfterError == [][status = "error" => UNCHANGED <<out, natlog, stdin, heap, envs, status, diags>>]_semvars
+NoEffectAfterErrorB == status = "error" => UNCHANGED <<out, natlog, stdin, heap, envs, status, diags>>
+NoEffectAfterError == [][NoEffectAfterErrorB]_semvars
 (* scopes and heap cells are never deleted or renumbered; a closure never changes *)
-Monotone == [][/\ Len(envs') >= Len(envs) /\ Len(heap') >= Len(heap)
+MonotoneB == /\ Len(envs') >= Len(envs) /\ Len(heap') >= Len(heap)
                /\ \A r \in 1..Len(heap) : heap[r].t = "fn" => heap'[r] = heap[r]
-               /\ \A e \in 1..Len(envs) : envs'[e].parent = envs[e].parent /\ DOMAIN envs[e].vars \subseteq DOMAIN envs'[e].vars]_semvars
+               /\ \A e \in 1..Len(envs) : envs'[e].parent = envs[e].parent /\ DOMAIN envs[e].vars \subseteq DOMAIN envs'[e].vars
+Monotone == [][MonotoneB]_semvars
 (* one step changes at most one existing heap cell (IndexStoreLocal / PropStoreLocal / PushRemoveArePure) *)
-StoreLocal == [][Cardinality({r \in 1..Len(heap) : heap'[r] # heap[r]}) <= 1]_semvars
+StoreLocalB == Cardinality({r \in 1..Len(heap) : heap'[r] # heap[r]}) <= 1
+StoreLocal == [][StoreLocalB]_semvars
 (* output only grows *)
-OutputAppendOnly == [][/\ Len(out') >= Len(out) /\ SubSeq(out', 1, Len(out)) = out
-                       /\ Len(natlog') >= Len(natlog) /\ SubSeq(natlog', 1, Len(natlog)) = natlog]_semvars
+OutputAppendOnlyB == /\ Len(out') >= Len(out) /\ SubSeq(out', 1, Len(out)) = out
+                       /\ Len(natlog') >= Len(natlog) /\ SubSeq(natlog', 1, Len(natlog)) = natlog
+OutputAppendOnly == [][OutputAppendOnlyB]_semvars
 =============================================================================
